@@ -180,6 +180,11 @@ class C09(P.Property):
         if knobs["stall"] is None and knobs["read_fault"] is None and knobs["kill_mid"] is None and knobs["blocker"] is None and rng.random() < 0.06:
             # the server is not running when a new client object sends this request; it is started afterwards and the same object tries again
             knobs["server_down"] = {"search": rng.randrange(len(steps)), "wait": rng.choice([0.01, 1.0, 30.0])}
+        knobs["write_fault"] = None
+        if all(knobs.get(k) is None for k in ("stall", "read_fault", "kill_mid", "blocker", "server_down")) and rng.random() < 0.06:
+            # the server's disk is full for one write (ENOSPC) from this search on: while searching the server only writes its state file
+            # when a connection ends; whatever that does to the connection that is hit, the next client object must be served
+            knobs["write_fault"] = {"search": rng.randrange(len(steps)), "torn": rng.random() < 0.5}
         knobs["sync_construct"] = rng.random() < 0.2  # client objects are built outside any running event loop (synchronous code, asyncio.run later)
         if rng.random() < 0.25:
             knobs["mtime_gran"] = rng.choice([1, 2])  # coarse file time stamps
@@ -406,21 +411,24 @@ class C09(P.Property):
                 run.boot_server()
                 await asyncio.sleep(dn["wait"])
                 # the same object tries again below: it never had a connection, there is no dead socket involved, so this search counts
+            wf = knobs.get("write_fault")
+            if wf is not None and wf["search"] == si:
+                run.seam.fail_write = ["server", 0, wf.get("torn", False)]
             rf = knobs.get("read_fault")
             if rf is not None and rf["search"] == si:
                 run.seam.fail_read = ("server", "edb")  # the server's next read of the stored index fails once (EMFILE)
-            faulted = stalled or run.seam.fail_read is not None or after_fault
+            faulted = stalled or run.seam.fail_read is not None or run.seam.fail_write is not None or after_fault
             cls = "present" if w in db else "absent"
             if cls == "absent":
                 probes["absent_keyword" if st["w"].startswith("absent") or st["w"] == "nothing" else "near_miss_keyword"] = 1
-            nfault0 = run.sim.counters.get("read_error", 0) + run.sim.counters.get("stall", 0)
+            nfault0 = run.sim.counters.get("read_error", 0) + run.sim.counters.get("stall", 0) + run.sim.counters.get("write_error", 0)
             r = await host.search(sid, w, fresh=host.obj is None, keep=True)
             run.sim.stall_once = None
             first = False
             if km is not None and km["search"] == si and run.server.alive:
                 kill_handle.cancel()  # the reply won the race: no fault happened
                 km = None
-            hit = ((run.sim.counters.get("read_error", 0) + run.sim.counters.get("stall", 0)) > nfault0 or (bl is not None and bl["search"] == si)
+            hit = ((run.sim.counters.get("read_error", 0) + run.sim.counters.get("stall", 0) + run.sim.counters.get("write_error", 0)) > nfault0 or (bl is not None and bl["search"] == si)
                    or (km is not None and km["search"] == si))
             if not run.server.alive:
                 # (killed mid-request) the operator restarts the server program; the client process of that time is gone
@@ -566,7 +574,7 @@ class C09(P.Property):
     def simplifications(self, plan):
         k = plan["knobs"]
         for key, val in (("skew", 1.0), ("bufsize", 8192), ("net", dict(lo=0.01, hi=0.01)), ("stall", None), ("restart_after_upload", False),
-                         ("recreate", [False] * 5), ("gaps", [0] * 5), ("cfg_index", 0), ("decoy", False), ("sse2_spare", 0), ("read_fault", None), ("blocker", None), ("real_restart", False), ("separate_hosts", False), ("kill_mid", None), ("mtime_gran", None), ("reboot_clock", None), ("server_down", None), ("sync_construct", False), ("restart_before_step", None)):
+                         ("recreate", [False] * 5), ("gaps", [0] * 5), ("cfg_index", 0), ("decoy", False), ("sse2_spare", 0), ("read_fault", None), ("blocker", None), ("real_restart", False), ("separate_hosts", False), ("kill_mid", None), ("mtime_gran", None), ("reboot_clock", None), ("server_down", None), ("sync_construct", False), ("restart_before_step", None), ("write_fault", None)):
             if k.get(key) != val:
                 yield dict(plan, knobs=dict(k, **{key: val}))
         db = k["db"]
